@@ -20,8 +20,12 @@ def g1_pairs(tier):
     step = 30 if q else 20
     rises = (0.0,) if q else (0.0, 0.7, -0.7)
     tilts = (0.0,) if q else (0.0, 15.0, -15.0)
+    k = 0
     for (l1, l2), r, th, ph, flip, rise, tilt in itertools.product(combos, rs, range(0, 360, step), range(0, 360, step), (False, True), rises, tilts):
-        yield dict(g=1, l1=l1, l2=l2, r=r, th=th, ph=ph, flip=flip, rise=rise, tilt=tilt)
+        # identity modes rotate over the lattice: ascending numbers, descending numbers (file order need not be sorted order),
+        # same number told apart by insertion codes only (ascending / descending)
+        k += 1
+        yield dict(g=1, l1=l1, l2=l2, r=r, th=th, ph=ph, flip=flip, rise=rise, tilt=tilt, idmode=k % 4)
 
 
 def g1_stack(tier):
@@ -33,22 +37,27 @@ def g1_stack(tier):
     tilts = (0.0, 20.0, 34.0, 36.0, 60.0) if q else (0.0, 10.0, 20.0, 30.0, 34.0, 36.0, 45.0, 60.0)
     twists = range(0, 360, 60) if q else range(0, 360, 30)
     ths = (0, 90, 200) if q else (0, 60, 90, 150, 200, 300)
+    kk = 0
     for (l1, l2), rise, lat, tilt, tw, th, flip, sign in itertools.product(combos, rises, lats, tilts, twists, ths, (False, True), (1, -1)):
         if lat == 0.0 and th != ths[0]:
             continue
-        yield dict(g=1, l1=l1, l2=l2, r=lat, th=th, ph=tw, flip=flip, rise=sign * rise, tilt=tilt)
+        kk += 1
+        yield dict(g=1, l1=l1, l2=l2, r=lat, th=th, ph=tw, flip=flip, rise=sign * rise, tilt=tilt, idmode=kk % 4)
 
 
 def structure_of(case):
     if case["g"] == 1:
-        specs = [("A", 1, None, case["l1"], case["l1"], enum3d.origin(case["l1"])),
-                 ("A", 2, None, case["l2"], case["l2"], enum3d.place(case["l2"], case["r"], case["th"], case["ph"], case["flip"], case.get("rise", 0.0), case.get("tilt", 0.0)))]
+        (n1, i1), (n2, i2) = [((1, None), (2, None)), ((7, None), (3, None)), ((5, None), (5, "A")), ((5, "B"), (5, "A"))][case.get("idmode", 0)]
+        specs = [("A", n1, i1, case["l1"], case["l1"], enum3d.origin(case["l1"])),
+                 ("A", n2, i2, case["l2"], case["l2"], enum3d.place(case["l2"], case["r"], case["th"], case["ph"], case["flip"], case.get("rise", 0.0), case.get("tilt", 0.0)))]
         return ac.build_structure(specs)
     if case["g"] == 2:
         c = case["center"]
-        specs = [("A", 1, None, c, c, enum3d.origin(c))]
+        ids = case.get("ids") or [("A", 1), ("A", 2), ("B", 3)]
+        ids = [list(x) + [None] * (3 - len(x)) for x in ids]
+        specs = [(ids[0][0], ids[0][1], ids[0][2], c, c, enum3d.origin(c))]
         for k, p in enumerate(case["partners"]):
-            specs.append(("A" if k == 0 else "B", 2 + k, None, p["l2"], p["l2"], enum3d.place(p["l2"], p["r"], p["th"], p["ph"], p["flip"], p.get("rise", 0.0), p.get("tilt", 0.0))))
+            specs.append((ids[1 + k][0], ids[1 + k][1], ids[1 + k][2], p["l2"], p["l2"], enum3d.place(p["l2"], p["r"], p["th"], p["ph"], p["flip"], p.get("rise", 0.0), p.get("tilt", 0.0))))
         return ac.build_structure(specs)
     raise KeyError(case)
 
@@ -74,7 +83,9 @@ def g2(tier):
                 continue
             pa = {k: a[k] for k in ("l2", "r", "th", "ph", "flip")}
             pb = {k: b[k] for k in ("l2", "r", "th", "ph", "flip")}
-            cases.append(dict(g=2, center=c, edge=edge, partners=[pa, pb]))
+            # listing order vs identity order: ascending, central residue last-in-order, partners swapped / other chain first
+            ids = [[("A", 1), ("A", 2), ("B", 3)], [("B", 9), ("A", 2), ("A", 5)], [("A", 5), ("B", 1), ("A", 2)], [("A", 4, "A"), ("A", 4), ("A", 4, "C")]][len(cases) % 4]
+            cases.append(dict(g=2, center=c, edge=edge, partners=[pa, pb], ids=[list(x) for x in ids]))
     _g2_cache[tier] = cases
     return cases
 
@@ -130,6 +141,10 @@ def variant(structure, kind, param=None):
             atoms.append(Atom(a.entity_id, a.label, a.auth, a.model, a.name, float(xyz[0]), float(xyz[1]), float(xyz[2]), a.occupancy))
         if atoms:
             res.append(Residue3D(r.label, r.auth, r.model, r.one_letter_name, tuple(atoms)))
+    if kind == "reverse-listing":
+        res = res[::-1]
+    elif kind == "second-half-first":
+        res = res[len(res) // 2 :] + res[: len(res) // 2]
     return Structure3D(res)
 
 
@@ -149,6 +164,8 @@ def corpus_cases(tier, files_quick, files_thorough, rotations=True):
                 yield dict(g=3, file=name, kind="drop-atom", param=an)
         for amp in (0.05, 0.2, 0.5):
             yield dict(g=3, file=name, kind="jitter", param=amp)
+        yield dict(g=3, file=name, kind="reverse-listing")
+        yield dict(g=3, file=name, kind="second-half-first")
         if rotations:
             for m in range(1, 24):
                 yield dict(g=3, file=name, kind="rotate", param=m)
